@@ -692,7 +692,7 @@ func (e *SpecEnv) evalLoc(x ast.Expr) *Loc {
 		idx, _ := e.scalar(iv, it)
 		if sl, ok := v.(Sl); ok {
 			et := t.Underlying().(*types.Slice).Elem()
-			return c.elemLoc(et, sl.Arr, App(SInt, "+", sl.Off, idx))
+			return c.elemLoc(et, sl.Arr, c.ix(sl.Off, idx))
 		}
 	case *ast.StarExpr:
 		v, t := e.eval(n.X)
@@ -727,7 +727,7 @@ func (e *SpecEnv) indexExpr(n *ast.IndexExpr) (SV, types.Type) {
 	case *types.Slice:
 		sl := v.(Sl)
 		idx, _ := e.scalar(iv, it)
-		loc := c.elemLoc(u.Elem(), sl.Arr, App(SInt, "+", sl.Off, idx))
+		loc := c.elemLoc(u.Elem(), sl.Arr, c.ix(sl.Off, idx))
 		if structOf(u.Elem()) != nil {
 			return c.loadStruct(e.st, u.Elem(), c.subRef(loc)), u.Elem()
 		}
@@ -1232,9 +1232,94 @@ func (e *SpecEnv) quantifier(kind string, n *ast.CallExpr) Term {
 	c.vc.noName--
 	c.vc.quant--
 	if kind == "forall" {
-		return Term{fmt.Sprintf("(forall ((%s %s)) %s)", bv, srt, Implies(guard, body).S), SBool}
+		inner := Implies(guard, body).S
+		if pats := selectPatterns(inner, bv); pats != "" && len(n.Args) == 4 {
+			return Term{fmt.Sprintf("(forall ((%s %s)) (! %s %s))", bv, srt, inner, pats), SBool}
+		}
+		return Term{fmt.Sprintf("(forall ((%s %s)) %s)", bv, srt, inner), SBool}
 	}
 	return Term{fmt.Sprintf("(exists ((%s %s)) %s)", bv, srt, And(guard, body).S), SBool}
+}
+
+// selectPatterns proposes triggers for a quantified formula: the innermost `select` terms
+// (and applications of uninterpreted functions) that mention the bound variable. Without
+// them the solvers refuse to match array indices of the form (+ off j).
+func selectPatterns(body, bv string) string {
+	seen := map[string]bool{}
+	var pats []string
+	// scan for "(select " / "(fn " applications containing bv; keep innermost ones
+	type span struct{ a, b int }
+	var stack []int
+	var spans []span
+	for i := 0; i < len(body); i++ {
+		switch body[i] {
+		case '|':
+			j := strings.IndexByte(body[i+1:], '|')
+			if j < 0 {
+				return ""
+			}
+			i += j + 1
+		case '(':
+			stack = append(stack, i)
+		case ')':
+			if len(stack) == 0 {
+				return ""
+			}
+			a := stack[len(stack)-1]
+			stack = stack[:len(stack)-1]
+			spans = append(spans, span{a, i + 1})
+		}
+	}
+	isCand := func(t string) bool {
+		if !strings.HasPrefix(t, "(select ") {
+			return false
+		}
+		if strings.Contains(t, "(forall ") || strings.Contains(t, "(exists ") || strings.Contains(t, "(ite ") {
+			return false
+		}
+		return containsSym(t, bv)
+	}
+	for _, sp := range spans {
+		t := body[sp.a:sp.b]
+		if !isCand(t) {
+			continue
+		}
+		// innermost: no proper sub-span is a candidate
+		inner := false
+		for _, sq := range spans {
+			if sq.a > sp.a && sq.b <= sp.b && (sq.a != sp.a || sq.b != sp.b) && isCand(body[sq.a:sq.b]) {
+				inner = true
+				break
+			}
+		}
+		if inner || seen[t] {
+			continue
+		}
+		seen[t] = true
+		pats = append(pats, ":pattern ("+t+")")
+		if len(pats) >= 4 {
+			break
+		}
+	}
+	return strings.Join(pats, " ")
+}
+
+func containsSym(t, sym string) bool {
+	i := 0
+	for {
+		j := strings.Index(t[i:], sym)
+		if j < 0 {
+			return false
+		}
+		j += i
+		end := j + len(sym)
+		okL := j == 0 || strings.ContainsRune(" ()", rune(t[j-1]))
+		okR := end >= len(t) || strings.ContainsRune(" ()", rune(t[end]))
+		if okL && okR {
+			return true
+		}
+		i = end
+	}
 }
 
 func trimSpecType(s string) string { return strings.TrimSpace(s) }
